@@ -194,6 +194,17 @@ void c09_case(Ctx& c, Rng& r) {
         if (hx::hexs(out).substr(0, 32) != "76b8e0ada0f13d90405d6ae55386bd28") c.violation("C09:chacha20:rfc8439-A.1-vector", J().kv("got", hx::hexs(out)).str());
         c.note("chacha.rfc-vectors");
     }
+    // the same input placed at every small offset inside a larger buffer (a ciphertext behind a 12-byte nonce, a field inside
+    // a decoded frame): the result may not depend on where the span starts in memory
+    {
+        const std::size_t off = 1 + r.below(15);
+        std::vector<std::uint8_t> backing(in.size() + 32, 0xEE);
+        std::copy(in.begin(), in.end(), backing.begin() + static_cast<std::ptrdiff_t>(off));
+        std::vector<std::uint8_t> out2;
+        crypto::ChaCha20::apply(key, nonce, std::span<const std::uint8_t>(backing.data() + off, in.size()), out2, counter);
+        c.note("chacha.misaligned-spans");
+        if (out2 != want) c.violation("C09:chacha20:keystream-mismatch:span-at-odd-offset", J().kv("len", in.size()).kv("counter", counter).kv("offset", off).str());
+    }
     std::vector<std::uint8_t> back;
     crypto::ChaCha20::apply(key, nonce, sp(out), back, counter);
     c.note("chacha.involution");
